@@ -46,7 +46,7 @@ def complex_array(draw, shape, maxmag=1e3, dense_prob=0.5):
     if draw(st.floats(0, 1)) < dense_prob:
         k = draw(st.integers(0, 2**31 - 1))
         rng = np.random.default_rng(k)
-        scale = draw(st.sampled_from([1e-3, 1.0, 1.0, 30.0, maxmag]))
+        scale = draw(st.sampled_from([1e-3, 1.0, 1.0, 30.0, maxmag, 1e-9, 1e-12, 1e7]))
         return (rng.normal(size=shape) + 1j * rng.normal(size=shape)) * scale / 3
     return draw(hnp.arrays(np.complex128, shape, elements=complex_elems(maxmag),
                            fill=st.just(0j)))
@@ -242,3 +242,9 @@ def relayout(a, kind):
     if kind == "reversed":
         return np.ascontiguousarray(a[..., ::-1, ::-1])[..., ::-1, ::-1]
     raise ValueError(kind)
+
+
+def scales():
+    """overall magnitude of an input array: mostly 1, sometimes tiny or huge (absolute tolerances such as
+    np.allclose's default atol=1e-8 silently misbehave there)"""
+    return st.sampled_from([1.0, 1.0, 1.0, 1.0, 1e-4, 1e-9, 1e-12, 1e6])
